@@ -170,6 +170,24 @@ def run(rep, build, tier, seed):
                     rep.finding("check-multi-report|%s|%d" % (combo, i), "--check on files %s: missing '%s'" % (combo, tag[:5] + " f%d.c" % i), {"kind": "multi-check", "combo": combo})
             if before != after:
                 rep.finding("check-multi-touch|%s" % combo, "--check touched files in a multi-file call", {"kind": "multi-check", "combo": combo})
+        # ---- a file of the call cannot be read: --check must not exit 0 ("every given file is already formatted" is false),
+        # whatever the other files are, in every way of naming the files
+        shutil.rmtree(multi, ignore_errors=True)
+        os.makedirs(multi)
+        fa, fb, gone = os.path.join(multi, "a.c"), os.path.join(multi, "b.c"), os.path.join(multi, "gone.c")
+        open(fa, "wb").write(F)
+        open(fb, "wb").write(F)
+        lst = os.path.join(multi, "list.txt")
+        open(lst, "w").write("\n".join([fa, gone, fb]) + "\n")
+        for nm, args in [("positional", [fa, gone, fb]), ("positional-last", [fa, fb, gone]), ("-F", ["-F", lst]), ("-f", ["-f", gone])]:
+            before = snapshot(multi)
+            p = subprocess.run([common.UNC, "-c", cfgp, "--check"] + args, stdout=subprocess.PIPE, stderr=subprocess.PIPE, timeout=30)
+            rep.count(key=("check-unreadable", nm), nontrivial=True)
+            rep.validated()
+            if p.returncode == 0:
+                rep.finding("check-unreadable|%s" % nm, "--check (%s) exits 0 although one of the named files does not exist" % nm, {"kind": "multi-check", "combo": "gone:" + nm})
+            if snapshot(multi) != before:
+                rep.finding("check-unreadable-touch|%s" % nm, "--check touched files", {"kind": "multi-check", "combo": "gone:" + nm})
         # ---- stdin + --if-changed (main(): output is written unconditionally)
         for nm, data in [("formatted", F), ("unformatted", U)]:
             rc, out, err = common.run_unc(["-q", "-c", cfgp, "-l", "C", "--if-changed"], inp=data)
